@@ -179,7 +179,10 @@ fn build(w: &mut World, d: &Value) -> Built {
             (v, derived)
         }
         "Transaction" | "TransactionWithPayment" => {
-            let txs: Vec<Transaction> = d["txs"].as_array().cloned().unwrap_or_default().iter().map(|t| {
+            // the address owner's own transactions first, transactions of other owners after them
+            let mut listed = d["txs"].as_array().cloned().unwrap_or_default();
+            listed.sort_by_key(|t| st(&t["owner"], "same") != "same");
+            let txs: Vec<Transaction> = listed.iter().map(|t| {
                 let o = if st(&t["owner"], "same") == "same" { &owner } else { &stranger };
                 let s = if st(&t["sig"], "ok") == "ok" { o } else { &stranger };
                 let s = if st(&t["sig"], "ok") == "ok" { s } else { if std::ptr::eq(o, &stranger) { &owner } else { &stranger } };
